@@ -22,4 +22,26 @@ PROPS = {
         "trusted": ["interleaving semantics at hook-point granularity; Go scheduler and memory model not modelled (data races are looked for with the direct oracle, not excluded by proof)"],
         "assumptions": ["mapFunc and reduceFunc are total and do not panic", "items are distinguishable (the harness uses 0..n-1)"],
     },
+    "C04": {
+        "corr_name": "Corr.Merge.agrees (Merge.Model.merge routing table vs merger.MergeResult.TypeURLMap)",
+        "level_text": "Full proof on the model for any number of services: the routing table is exactly 'last declarer wins' over the routable fields of the object types of the inputs (routes_are_last_declarer); every route names a configured service whose schema declares that field on that type (routes_owned); no routable field is left without a route and a field with a single declarer (root fields, non-id fields of Node types) is routed to it (routes_total, unique_declarer_is_the_route); every non-id routable field of every object type of the MERGED schema is routed to a declarer (merged_fields_routed, via the merge invariant); stitchable flag iff some service declares the object type as implementing Node; GetURLs = the set of routed services. Tied to merger.TypeURLMap / ExtendMergerFunc by running model and code on the same generated schema sets in several orders; the property's own oracle is applied to the real MergeResult.",
+        "level_note": "Trusted: Coq kernel + vm_compute; hand-written port Merge/Model.v of type_url_map.go and extend_merger.go (types kept as SDL strings, maps as association lists, applied directives not modelled); gqlparser LoadSchema/formatter exercised, reload assumed identity; harness generator/canonicaliser. Hypothesis wf_schema (unique type names, root types are objects) is a boolean check satisfied by every valid GraphQL schema.",
+        "trusted": ["gqlparser (LoadSchema, formatter) exercised, not modelled; the formatSchema+LoadSchema round trip is assumed to be the identity on accepted results"],
+        "assumptions": ["applied directives on types are not modelled", "service schemas are valid GraphQL schemas (gqlparser.LoadSchema accepts them)"],
+    },
+    "C03": {
+        "corr_name": "Corr.Merge.agrees (Merge.Model.merge result types vs merger.ExtendMergerFunc / SanitizeNodeMergerFunc)",
+        "level_text": "Refuted + partial. C03_full (field-level union) is false of the faithful model and of the code: C03_refuted (Query.node survives only when the LAST listed service declares it; listed finding C03-node-lost; a second corner, same field name with different signature, is listed as C03-field-signature). Proved for any number of services in any order (closed under the global context): merged_subset (every field record of every merged type is a field record of the same-named type of some service: nothing invented), merged_has_every_type (every type of every service is present exactly once with the same kind), hide_node_only_removes_node; field-level superset is tied by the correspondence (model = code on every generated set, in up to 6 orders) and by the direct union oracle on the real merger, not yet by a theorem.",
+        "level_note": "Trusted: Coq kernel + vm_compute; hand-written port Merge/Model.v (types as SDL strings, maps as association lists; applied directives and directive definitions not modelled; enum values / union members / interfaces merged by the ported lo.Uniq); formatSchema+LoadSchema assumed identity on accepted results (exercised); harness. Validity of the merged schema is observed (LoadSchema accepts it), not proved.",
+        "trusted": ["gqlparser (LoadSchema, formatter) exercised, not modelled; the formatSchema+LoadSchema round trip is assumed to be the identity on accepted results"],
+        "assumptions": ["applied directives on types and directive definitions are not modelled"],
+    },
+    "C05": {
+        "corr_name": "Corr.Merge.agrees (Merge.Model.merge accept/reject + error class vs merger.ExtendMergerFunc)",
+        "level_text": "Refuted + partial. Order-independence is false of the faithful model and of the code (C05_order_refuted: V{x},V{y},V{x} accepted as [A;C;B], rejected as [A;B;C]; listed finding C05-order-3; also C05-node-order) and 'shared field with different type or arguments is rejected' is false (C05_signature_refuted; listed finding C05-field-signature). Proved (closed under the global context): with two services every other conflict kind of the statement is an error whatever else the schemas contain \u2014 conflict_is_rejected + one lemma per kind (different kinds, union members, Node mismatch, duplicate root field, Node-type field overlap, partial overlap of a shared plain type/input). The model has no panic outcome; panics of the real merger are observed by the harness (recover). Tied to the code by running model and merger on mergeable sets and conflict-introducing edits under up to 6 permutations; the direct oracle checks rejection of every conflict in every order and order-independence of acceptance, resulting types and Node-field routes.",
+        "level_note": "Trusted: Coq kernel + vm_compute; hand-written port Merge/Model.v; when several types conflict Go reports whichever its map iteration meets first \u2014 the model returns all and the observed class must be among them; gqlparser exercised not modelled; harness generators (conflict edits) and canonicalisers.",
+        "trusted": ["gqlparser (LoadSchema, formatter) exercised, not modelled"],
+        "assumptions": ["when several types conflict the Go code reports whichever its map iteration meets first; the model returns all conflicts and the observed one must be among them"],
+        "timeout": {"quick": 1500, "thorough": 6000},
+    },
 }
